@@ -230,7 +230,7 @@ pub fn property() -> Property {
             },
             check,
         ),
-        prop_family("histories", 20_000, 1_000_000, |_| case(), check),
+        prop_family("histories", 80_000, 1_500_000, |_| case(), check),
     ];
     Property {
         id: "C10",
